@@ -71,7 +71,7 @@ def build(cfg):
     return BUILDERS[fam](cfg)
 
 
-RAW_FAMILIES = {"binary", "where", "reduce", "cum", "unary", "rearr", "join", "contract", "index", "mixorder", "linalg", "fft", "kink",
+RAW_FAMILIES = {"scipy", "binary", "where", "reduce", "cum", "unary", "rearr", "join", "contract", "index", "mixorder", "linalg", "fft", "kink",
                 "argsweep", "empty", "single", "realinto"}
 
 
@@ -1069,4 +1069,159 @@ def b_helper(c):
     return f, x, {}
 
 
-BUILDERS = {"seltuple": b_seltuple, "single": b_single, "empty": b_empty, "mixorder": b_mixorder, "realinto": b_realinto, "special": b_special, "extend": b_extend, "helper": b_helper, "argsweep": b_argsweep, "kink": b_kink, "linalg": b_linalg, "fft": b_fft, "index": b_index, "join": b_join, "contract": b_contract, "rearr": b_rearr, "binary": b_binary, "where": b_where, "reduce": b_reduce, "cum": b_cum, "unary": b_unary}
+# ----------------------------------------------------------------------------- autograd.scipy
+def sci(path):
+    """'special.gammaln' -> the function, from autograd.scipy (or from scipy itself while `np` is bound to plain numpy: raw_value)"""
+    import importlib
+    mod, name = path.rsplit(".", 1)
+    try:
+        m = importlib.import_module(("scipy." if np is onp else "autograd.scipy.") + mod)
+    except ImportError as ex:
+        raise Skip("no scipy: " + str(ex)[:40])
+    return getattr(m, name)
+
+
+SCI_DOMAIN = {  # argument domains (lo, hi) per function, positional
+    "special.erfinv": [(-0.8, 0.8)], "special.erfcinv": [(0.2, 1.8)], "special.logit": [(0.1, 0.9)],
+    "special.betainc": [(0.5, 2.5), (0.5, 2.5), (0.1, 0.9)], "stats.beta.pdf": [(0.1, 0.9), (0.5, 2.5), (0.5, 2.5)],
+    "stats.beta.logpdf": [(0.1, 0.9), (0.5, 2.5), (0.5, 2.5)], "stats.beta.cdf": [(0.1, 0.9), (0.5, 2.5), (0.5, 2.5)],
+    "special.erf": [(-1.5, 1.5)], "special.erfc": [(-1.5, 1.5)], "special.expit": [(-2.0, 2.0)],
+    "special.i0": [(-2.0, 2.0)], "special.i1": [(-2.0, 2.0)], "special.j0": [(-3.0, 3.0)], "special.j1": [(-3.0, 3.0)],
+    "special.gammasgn": [(-2.9, 2.9)],
+    "stats.norm.pdf": [(-1.5, 1.5), (-1.0, 1.0), (0.5, 2.0)], "stats.norm.cdf": [(-1.5, 1.5), (-1.0, 1.0), (0.5, 2.0)],
+    "stats.norm.sf": [(-1.5, 1.5), (-1.0, 1.0), (0.5, 2.0)], "stats.norm.logpdf": [(-1.5, 1.5), (-1.0, 1.0), (0.5, 2.0)],
+    "stats.norm.logcdf": [(-1.5, 1.5), (-1.0, 1.0), (0.5, 2.0)], "stats.norm.logsf": [(-1.5, 1.5), (-1.0, 1.0), (0.5, 2.0)],
+}
+
+
+def sci_data(prim, pos, shape, k):
+    lo, hi = (SCI_DOMAIN.get(prim) or [])[pos:pos + 1] and SCI_DOMAIN[prim][pos] or (0.4, 2.6)
+    return data(shape, lo, hi, k)
+
+
+def b_scipy(c):
+    prim, argnum, st = c["prim"], c["argnum"], c["st"]
+    fn = sci(prim)
+    s1, s2, s3 = tuple(c["s"]), tuple(c["s2"]), tuple(c["s3"])
+    info = {}
+
+    def pick(args, f):
+        """f(*args) as a function of args[argnum]"""
+        x = args[argnum]
+        if onp.ndim(x) == 0:
+            x = float(x) if c["id"] % 2 == 0 else onp.array(float(x))
+        rest = list(args)
+
+        def g(v):
+            a = list(rest)
+            a[argnum] = v
+            return f(*a)
+        return g, x, info
+    base = prim.split(".")[-1]
+    if prim in ("special.polygamma", "special.jn", "special.yn", "special.iv", "special.ive"):
+        n = c["ia"]
+        x = sci_data(prim, 0, s1, 0)
+        return (lambda v: fn(n, v)), (x if onp.ndim(x) else float(x)), info
+    if prim == "special.multigammaln":
+        d = c["ia"]
+        x = data(s1, 1.6, 3.4, 0)          # a > (d - 1) / 2
+        return (lambda v: fn(v, d)), (x if onp.ndim(x) else float(x)), info
+    if prim == "special.logsumexp":
+        x = data(s1, -1.0, 2.0, 0)
+        ax = axis_arg(c["ax"])
+        kw = {"axis": ax, "keepdims": c["kd"]}
+        if st == "bscalar":
+            kw["b"] = 1.75
+        elif st == "b":
+            kw["b"] = data(s1, 0.5, 1.5, 7)
+        elif st == "bbroadcast":
+            kw["b"] = data(s1[-1:], 0.5, 1.5, 7)
+        return (lambda v: fn(v, **kw)), x, info
+    if prim.startswith("stats.poisson."):
+        k = onp.floor(data(s1, 0.0, 5.0, 0))
+        mu = data(s2, 0.6, 3.0, 4)
+        return pick([k, mu], lambda a, b: fn(a, b))
+    if prim.startswith("stats.t."):
+        x, df = data(s1, -1.5, 1.5, 0), data(s2, 1.5, 4.5, 3)
+        loc, scale = data(s3, -1.0, 1.0, 6), data(s3, 0.5, 2.0, 9)
+        if st == "kw":
+            # loc / scale by keyword (the rules take them as defaulted parameters)
+            if argnum >= 2:
+                return pick([x, df, loc, scale], lambda a, b, l, sc: fn(a, b, loc=l, scale=sc))
+            return pick([x, df], lambda a, b: fn(a, b, loc=loc, scale=scale))
+        return pick([x, df, loc, scale], lambda a, b, l, sc: fn(a, b, l, sc))
+    if prim.startswith("stats.dirichlet."):
+        x = onp.array([0.2, 0.3, 0.5])
+        alpha = data((3,), 0.6, 2.4, 2)
+        if argnum == 0:
+            raise Skip("points off the simplex are rejected by scipy: no finite-difference oracle for x")
+        return pick([x, alpha], lambda a, b: fn(a, b))
+    if prim.startswith("stats.multivariate_normal."):
+        B = data((3, 3), -1.0, 1.0, 3)
+        cov = B @ B.T + 1.5 * onp.eye(3)
+        mean = data((3,), -1.0, 1.0, 5)
+        sym = lambda m: (m + np.swapaxes(m, -1, -2)) / 2.0        # the density is a function of a symmetric matrix
+        if base == "entropy":
+            return pick([mean, cov], lambda m, cv: fn(m, sym(cv)))
+        x = data(s1, -1.0, 1.0, 0)
+        kw = {"allow_singular": True} if st == "singular" else {}
+        return pick([x, mean, cov], lambda a, m, cv: fn(a, m, sym(cv), **kw))
+    if prim == "linalg.sqrtm":
+        B = data(s1, 0.2, 1.2, 1)
+        A = B @ B.T + 2.0 * onp.eye(s1[0]) + 0.3 * data(s1, -1.0, 1.0, 8)
+        return (lambda v: fn(v)), A, info
+    if prim == "linalg.solve_triangular":
+        lower = bool(c["kd"])
+        full = data((3, 3), 0.5, 2.0, 1) + 2.0 * onp.eye(3)
+        a = onp.tril(full) if lower else onp.triu(full)
+        b = data(s2, -1.0, 1.0, 4)
+        tr = c["ia"]
+        if st == "str":
+            kw = {"trans": "NTC"[tr], "lower": lower}
+        elif st == "default":
+            if tr:
+                raise Skip("default trans")
+            kw = {"lower": lower}
+        else:
+            kw = {"trans": tr, "lower": lower}
+        return pick([a, b], lambda u, v: fn(u, v, **kw))
+    if prim == "linalg.solve_sylvester":
+        a = data(s1, 0.5, 2.0, 1) + 2.0 * onp.eye(s1[0])
+        b = data(s2, 0.5, 2.0, 5) + 2.0 * onp.eye(s2[0])
+        q = data(s3, -1.0, 1.0, 9)
+        return pick([a, b, q], lambda u, v, w: fn(u, v, w))
+    if prim == "linalg.solve_banded":
+        l, u = c["tp"]
+        ab = data(s1, 0.3, 1.2, 1)
+        ab[u] = ab[u] + 3.0            # diagonally dominant
+        b = data(s2, -1.0, 1.0, 4)
+        return pick([(l, u), ab, b], lambda lu, m, v: fn(tuple(lu), m, v))
+    if prim == "signal.convolve":
+        A, B = data(s1, -1.0, 1.0, 0), data(s2, -1.0, 1.0, 6)
+        kw = {"mode": st}
+        lay = c["ia"]
+        if lay == 1:
+            kw.update(axes=([1], [1]), dot_axes=([0], [0]))
+        elif lay == 2:
+            kw.update(axes=([1], [0]))
+        elif lay == 3:
+            kw.update(axes=([0, 1], [0, 1]))
+        elif lay == 4:
+            kw.update(axes=([1], [1]))
+        if np is onp:
+            raise Skip("autograd's convolve is its own function (tensor convolution with dot axes), not scipy.signal.convolve")
+        return pick([A, B], lambda u, v: fn(u, v, **kw))
+    # elementwise functions of 1, 2 or 3 broadcast arguments
+    nargs = 1 if prim in ("special.gammaln", "special.gamma", "special.rgamma", "special.psi", "special.digamma", "special.erf", "special.erfc",
+                          "special.erfinv", "special.erfcinv", "special.logit", "special.expit", "special.i0", "special.i1", "special.j0",
+                          "special.j1", "special.y0", "special.y1", "special.gammasgn") else (3 if s3 != () or prim in (
+                              "special.betainc", "stats.beta.pdf", "stats.beta.logpdf", "stats.beta.cdf") or prim.startswith("stats.norm.") else 2)
+    shapes = [s1, s2, s3][:nargs]
+    args = [sci_data(prim, i, sh, 3 * i) for i, sh in enumerate(shapes)]
+    if nargs == 1:
+        x = args[0]
+        return (lambda v: fn(v)), (x if onp.ndim(x) else (float(x) if c["id"] % 2 == 0 else onp.array(float(x)))), info
+    return pick(args, lambda *a: fn(*a))
+
+
+BUILDERS = {"scipy": b_scipy, "seltuple": b_seltuple, "single": b_single, "empty": b_empty, "mixorder": b_mixorder, "realinto": b_realinto, "special": b_special, "extend": b_extend, "helper": b_helper, "argsweep": b_argsweep, "kink": b_kink, "linalg": b_linalg, "fft": b_fft, "index": b_index, "join": b_join, "contract": b_contract, "rearr": b_rearr, "binary": b_binary, "where": b_where, "reduce": b_reduce, "cum": b_cum, "unary": b_unary}
